@@ -32,6 +32,8 @@ pub struct GenCfg {
     pub max_readers: u32,
     pub ro_mutators: bool, // C06: try mutators through read-only transactions
     pub delete_heavy: bool,
+    /// make every commit change the logical state (a unique marker is written first)
+    pub marker: bool,
 }
 
 impl GenCfg {
@@ -82,6 +84,7 @@ impl GenCfg {
             max_readers: 0,
             ro_mutators: false,
             delete_heavy,
+            marker: false,
         }
     }
 }
@@ -243,7 +246,21 @@ impl Gen {
                     if !rw {
                         return Some(Step::Drop);
                     }
-                    return Some(if self.r.chance(self.cfg.p_drop as u64, 100) { Step::Drop } else { Step::Commit });
+                    if self.r.chance(self.cfg.p_drop as u64, 100) {
+                        return Some(Step::Drop);
+                    }
+                    if self.cfg.marker {
+                        let tag = self.fresh_tag();
+                        self.queue.push_back(Step::Put {
+                            path: vec![b"zz-m".to_vec()],
+                            key: Blob::Raw(b"marker".to_vec()),
+                            val: Blob::Pat { tag, len: 12 },
+                            via: Via::Vec,
+                        });
+                        self.queue.push_back(Step::Commit);
+                        return Some(Step::GetOrCreate { path: vec![], name: Blob::Raw(b"zz-m".to_vec()), via: Via::Vec });
+                    }
+                    return Some(Step::Commit);
                 }
                 self.steps_left_in_tx -= 1;
                 Some(self.op(ctx.view, rw))
@@ -281,6 +298,11 @@ impl Gen {
             let val = self.val();
             let via = self.via();
             self.queue.push_back(Step::Put { path: path.clone(), key, val, via });
+        }
+        if self.cfg.marker {
+            let tag = self.fresh_tag();
+            self.queue.push_back(Step::GetOrCreate { path: vec![], name: Blob::Raw(b"zz-m".to_vec()), via: Via::Vec });
+            self.queue.push_back(Step::Put { path: vec![b"zz-m".to_vec()], key: Blob::Raw(b"marker".to_vec()), val: Blob::Pat { tag, len: 12 }, via: Via::Vec });
         }
         self.queue.push_back(Step::Commit);
     }
